@@ -54,24 +54,52 @@ def random_history(rng, length, with_obj=False):
         elif r < 0.24:
             ops.append({"op": "Reseed", "s": rng.choice([1, 2])})
         elif r < 0.36:
-            ops.append({"op": "CallNone", "e": "rand"})
+            ops.append({"op": "CallNone", "e": rng.choice(["rand"] * 4 + ["alt"])})
         elif r < 0.44:
             ops.append({"op": "CallNone", "e": "det"})
-        elif r < 0.74:
-            ops.append({"op": "CallInt", "e": "rand", "s": rng.choice([1, 1, 2])})
+        elif r < 0.74:      # mostly the seeds 1, 2 (repeats), sometimes one of the other ten; sometimes the float32 twin
+            ops.append({"op": "CallInt", "e": rng.choice(["rand"] * 4 + ["alt"]),
+                        "s": rng.choice([1, 1, 1, 2, 2, rng.randint(3, NSEEDS)])})
         else:
-            ops.append({"op": "CallGen", "e": "rand", "g": rng.choice(["g1", "g2"])})
+            ops.append({"op": "CallGen", "e": rng.choice(["rand"] * 4 + ["alt"]), "g": rng.choice(["g1", "g2"])})
     return ops
 
 
-def real_seeds(rng):
-    """two distinct real seeds for the model seeds 1, 2 (all seed values: random 32-bit, small, and the extremes)"""
+NSEEDS = 12          # model seeds 1..12 (MCSeeds12 of the trace configuration); the walks of the design graph use 1, 2
+OUT_OF_RANGE = [-1, 2**32, 2**40, -2**31]     # NumPy takes seeds in [0, 2**32-1]; the clean tree refuses these with ValueError
+
+
+def real_seeds(rng, out_of_range=False):
+    """distinct real seeds for the model seeds (all seed values: random 32-bit, small, 0 and the largest legal seed);
+    with out_of_range one of the seeds 1, 2 is an integer NumPy refuses: the call must fail the same way every time
+    and -- like every integer-seeded call -- leave the global stream alone"""
     pool = [rng.randrange(0, 2**32), rng.randrange(0, 2**32), rng.randrange(0, 100), 0, 2**32 - 1, 1, 42]
     a = rng.choice(pool)              # seed 0 and the largest legal seed 2**32-1 each in about 1/7 of the traces
     b = a
     while b == a:
         b = rng.choice(pool)
-    return {"1": a, "2": b}
+    seeds = {"1": a, "2": b}
+    if out_of_range:
+        seeds[rng.choice(["1", "1", "2"])] = rng.choice(OUT_OF_RANGE)
+    used = set(seeds.values())
+    for k in range(3, NSEEDS + 1):
+        v = rng.randrange(0, 2**32)
+        while v in used:
+            v = rng.randrange(0, 2**32)
+        used.add(v)
+        seeds[str(k)] = v
+    return seeds
+
+
+def cache_histories():
+    """"same seed, same inputs => same result" wherever in the history the call sits: the same integer seed on the entry
+    and on its float32 twin ("alt"), in both orders, separated by a block of calls with 10 other seeds (enough to push
+    anything out of a small per-process memo), then both again."""
+    def churn(e):
+        return [{"op": "CallInt", "e": e, "s": k} for k in range(3, NSEEDS + 1)]
+    r1, a1 = {"op": "CallInt", "e": "rand", "s": 1}, {"op": "CallInt", "e": "alt", "s": 1}
+    return [[a1, r1] + churn("rand") + [r1, a1] + churn("alt") + [a1, r1],
+            [r1, a1] + churn("alt") + [a1, r1] + churn("rand") + [r1, a1]]
 
 
 def execute(case):
@@ -97,18 +125,26 @@ def build_cases(chk, walks, thorough, only=None, obj_walks=None):
             hist = hist[::3]
         for k in range(nrand if not slow else max(2, nrand // 3)):
             hist.append(("r%03d" % k, random_history(rng, rng.randint(6, 20 if thorough else 14), with_obj=isobj)))
+        ncache = 0
+        if obj_walks is not None:                 # (not in --replay of a single case)
+            for k, h in enumerate(cache_histories()):
+                hist.append(("c%03d" % k, h))
+                ncache += 1
         for hid, ops in hist:
+            plain = hid.startswith("c")       # the memo histories: ordinary in-range Python int seeds
+            oor = (not plain) and rng.random() < 0.1
             if isobj and reg[ek]["obj"]["clone"] is None:
                 # the class offers no get_params(): a "clone" cannot be built, re-fit the object instead (FitObj is
                 # enabled wherever CloneFit is and has the same effect in the model)
                 ops = [dict(op, op="FitObj") if op["op"] == "CloneFit" else op for op in ops]
             tr = "e%02d/%s" % (index[ek], hid)     # short ids: TLC wraps long PrintT tuples over several lines
             cases.append({"id": "C16/" + tr, "tr": tr, "entry": ek, "fn": reg[ek]["fn"], "opt": reg[ek]["opt"], "ops": ops,
-                          "seeds": real_seeds(rng), "genseed": GENSEED, "objseed": OBJSEED, "start": rng.randrange(0, 2**32),
+                          "seeds": real_seeds(rng, oor), "genseed": GENSEED, "objseed": OBJSEED, "start": rng.randrange(0, 2**32),
                           "flavour": rng.randrange(0, 4),
                           # the FORM in which the seed / the generator is handed over (see lib_seeded.SEEDFORMS / GENFORMS)
                           "prefit": rng.choice(["none", "none", "other", "failing"]),     # class entries: the object's past
-                          "seedform": rng.choice(["int"] * 8 + ["np.int64", "np.uint32"]),
+                          "seedform": "int" if plain else rng.choice(["int"] * 5 + ["np.int64"]) if oor else
+                                      rng.choice(["int"] * 17 + ["np.int64", "np.int64", "np.uint32"]),
                           "genform": rng.choice(["RandomState"] * 15 + ["subclass"] * 4 + ["Generator"])})
     return cases
 
@@ -196,6 +232,7 @@ def run(chk, opts):
     f_design2 = pool.submit(tlc.run, "RngStreamsMC", "RngStreamsMC_thorough_all.cfg", workers=NCPU, timeout=3000) if thorough else None
     f_wit = {v: pool.submit(tlc.run, "RngStreamsMC", "RngStreamsMC_%s.cfg" % v, workers=2, timeout=900, extra=["-continue"])
              for v in ("asfound", "leak", "witness", "objstream")}
+    f_design3 = pool.submit(tlc.run, "RngStreamsMC", "RngStreamsMC_quick3.cfg", workers=2, timeout=900)   # 3 entry classes
     objcfg = "RngStreamsMC_thorough_obj.cfg" if thorough else "RngStreamsMC_quick_obj.cfg"
     f_designobj = pool.submit(tlc.run, "RngStreamsMC", objcfg, workers=NCPU if thorough else 4, coverage=True, timeout=3000)
     # 2. spec -> code: transition cover of the labelled state graph + random histories
@@ -255,6 +292,12 @@ def run(chk, opts):
     for a_ in ("FitObj", "CloneFit"):
         if ro.coverage.get(a_, (0, 0))[1] == 0:
             chk.machinery.append("vacuous: action %s of RngStreamsMC never taken" % a_)
+    r3 = f_design3.result()
+    chk.states += r3.distinct
+    chk.transitions += r3.generated
+    chk.notes["design_run_three_entry_classes"] = r3.summary()
+    if not r3.ok:
+        chk.machinery.append("design spec RngStreamsMC/RngStreamsMC_quick3.cfg does not satisfy its own properties: %s" % (r3.violated or r3.summary()))
     w = f_wit["objstream"].result()
     chk.states += w.distinct
     chk.transitions += w.generated
@@ -298,8 +341,8 @@ def run(chk, opts):
     phases["validated_s"] = round(time.time() - t0, 1)
     chk.notes["phases"] = phases
     nent = len({c["entry"] for c in cases})
-    chk.rule = ("every edge of the labelled state graph of RngStreams (%d states, %d transitions, <=%d ops; %d covering walks) plus "
-                "%d random histories per entry point (seed %d), each replayed on each of %d seed-accepting entry point variants "
+    chk.rule = ("every edge of the labelled state graph of RngStreams (%d states, %d transitions, <=%d ops; %d covering walks) plus 2 memo histories (entry and its float32 twin, same seed, both orders, separated by 10 other seeds) and "
+                "%d random histories per entry point (seed %d; 12 seeds, ~10%% of the traces with an out-of-range integer seed, ~15%% with NumPy integer seeds), each replayed on each of %d seed-accepting entry point variants "
                 "(%d public functions/classes) with per-trace random real seeds; class-type entries (%d variants) additionally keep ONE estimator object per trace, constructed with the integer seed, that is re-fitted (FitObj) and cloned from get_params() (CloneFit) along the walks of the graph with those actions (%d transitions); a case = one trace; distinct = distinct (entry, op, "
                 "seeding) steps observed" % (nstates, nedges, 4 if thorough else 3, len(walks), 120 if thorough else 6, chk.seed,
                                              nent, len({c["fn"] for c in cases}),
